@@ -1,4 +1,5 @@
 mod auth;
+mod cluster;
 mod codec;
 mod config;
 mod crash;
@@ -27,6 +28,7 @@ fn main() {
         "logstore" => logstore::run(),
         "node" => node::run(args.get(2).map(|s| s.as_str()).unwrap_or("")),
         "apply" => apply::run(),
+        "cluster" => cluster::run(),
         "ack" => ack::run(),
         "crash" => crash::run(),
         "crashchild" => crash::run_child(args.get(2).map(|s| s.as_str()).unwrap_or("")),
